@@ -497,11 +497,33 @@ def _gen_polygon(rng):
         if rng.random() < 0.5:
             v = v[::-1]
         v = np.roll(v, int(rng.integers(len(v))), axis=0)
+        extra = ""
+        if not lattice:
+            size1 = float(np.hypot(*(v.max(axis=0) - v.min(axis=0))))
+            if rng.random() < 0.35:
+                # short edges: an extra corner very close (1e-9 .. 1e-2 of the size) to an existing one; half of the time it
+                # becomes the LAST vertex, lying beside the FIRST one
+                for _try in range(6):
+                    i = 0 if rng.random() < 0.5 else int(rng.integers(len(v)))
+                    al = rng.uniform(0, 2 * math.pi)
+                    d = size1 * float(10 ** rng.uniform(-9, -2)) * np.array([math.cos(al), math.sin(al)])
+                    w = np.insert(v, i, v[i] + d, axis=0)            # new corner precedes corner i
+                    if i == 0:
+                        w = np.roll(w, -1, axis=0)                   # ... v[0] first, the new corner last
+                    if certify_simple([[float(a), float(b)] for a, b in w]) is not None:
+                        v = w
+                        extra += "+short-edge"
+                        break
+            if rng.random() < 0.3:
+                # far from the origin relative to its size (offset/size 1e2 .. 1e6)
+                al = rng.uniform(0, 2 * math.pi)
+                v = v + size1 * float(10 ** rng.uniform(2, 6)) * np.array([math.cos(al), math.sin(al)])
+                extra += "+far-offset"
         verts = [[float(a), float(b)] for a, b in v]
         if certify_simple(verts) is not None:
             if kind.startswith("decimal-rect"):
                 return "decimal-rect", float(kind.split(":")[1]), verts
-            return kind + ("-lattice" if lattice else ""), lattice, verts
+            return kind + ("-lattice" if lattice else "") + extra, lattice, verts
     return "square", True, [[0.0, 0.0], [1.0, 0.0], [1.0, 1.0], [0.0, 1.0]]
 
 
@@ -519,8 +541,20 @@ def _mask_queries(rng, verts, lattice, n):
         for _ in range(n):
             pts.append([int(rng.integers(i0 - 2, i1 + 3)) * h, int(rng.integers(j0 - 2, j1 + 3)) * h])
         return pts
+    elen = [float(np.hypot(*(v[(i + 1) % nv] - v[i]))) for i in range(nv)]
+    short = [i for i in range(nv) if elen[i] < 0.02 * size]
     for _ in range(n):
         k = int(rng.integers(7))
+        if short and nv >= 4 and rng.random() < 0.5:
+            # inside one of the small triangles next to a short edge (i, i+1): (i-1, i, i+1) or (i, i+1, i+2)
+            i = short[int(rng.integers(len(short)))]
+            tri = [i - 1, i, i + 1] if rng.random() < 0.5 else [i, i + 1, i + 2]
+            w = rng.dirichlet([1, 1, 1])
+            if rng.random() < 0.5:
+                w = rng.dirichlet([3, 3, 3])
+            q = [float(sum(w[j] * v[tri[j] % nv][0] for j in range(3))), float(sum(w[j] * v[tri[j] % nv][1] for j in range(3)))]
+            pts.append(q)
+            continue
         if k == 6 and nv >= 4:
             # on the chord between two non-adjacent vertices: a potential internal diagonal of the triangulation
             i = int(rng.integers(nv))
@@ -1238,15 +1272,21 @@ def _dist_to_chords(verts, q):
 
 
 def _collinear_triple(verts, size):
-    """first triple of distinct vertices whose cross product is below 1e-9 * size^2 (collinear to within rounding), or None"""
+    """first triple of distinct vertices that is collinear to within rounding: the cross product of the two edge vectors
+    is below 1e-9 |u||v| (angle) + 1e3 eps max|coordinate| (|u|+|v|) (what double arithmetic can resolve); or None.
+    (Short edges alone do not make a triple collinear.)"""
     n = len(verts)
-    thr = 1e-9 * size * size
+    maxc = max(max(abs(v[0]), abs(v[1])) for v in verts)
+    rnd = 1e3 * 2.220446049250313e-16 * maxc
     for i in range(n):
         ax, ay = verts[i]
         for j in range(i + 1, n):
             ux, uy = verts[j][0] - ax, verts[j][1] - ay
+            lu = math.hypot(ux, uy)
             for k in range(j + 1, n):
-                if abs(ux * (verts[k][1] - ay) - uy * (verts[k][0] - ax)) <= thr:
+                wx, wy = verts[k][0] - ax, verts[k][1] - ay
+                lw = math.hypot(wx, wy)
+                if abs(ux * wy - uy * wx) <= 1e-9 * lu * lw + rnd * (lu + lw):
                     return [i, j, k]
     return None
 
@@ -1262,6 +1302,11 @@ def _run_mask(case, ctx):
     xs = [v[0] for v in verts]
     ys = [v[1] for v in verts]
     size = math.hypot(max(xs) - min(xs), max(ys) - min(ys))
+    maxc = max(abs(t) for t in xs + ys)
+    edge_thr = max(1e-9 * size, 1e4 * 2.220446049250313e-16 * maxc)
+    for tag in ("+short-edge", "+far-offset"):
+        if tag in case.get("poly_kind", ""):
+            ctx.cls("polygon-class:" + tag[1:])
     try:
         mask = cm.PolygonMask2D(arg)
     except RuntimeError as e:
@@ -1281,8 +1326,8 @@ def _run_mask(case, ctx):
     orient = "ccw" if area2 > 0 else "cw"
     for q in case["pts"]:
         q = [float(q[0]), float(q[1])]
-        if _dist_to_edges(verts, q) < 1e-9 * size:
-            ctx.skip("mask query point closer than 1e-9*size to a polygon edge")
+        if _dist_to_edges(verts, q) < edge_thr:
+            ctx.skip("mask query point closer than max(1e-9*size, 1e4 eps*|coordinates|) to a polygon edge")
             continue
         flat = _to_ints([c for v in verts for c in v] + q)
         P = [(flat[2 * i], flat[2 * i + 1]) for i in range(len(verts))]
@@ -1311,6 +1356,9 @@ def _run_mask(case, ctx):
                 key = "PolygonMask2D:collinear-vertices:wrong-mask"
                 what = ("PolygonMask2D differs from exact point-in-polygon for a simple polygon that has three vertices collinear "
                         "to within rounding (vertices %s): the ear-clipping triangulation is invalid" % (col,))
+            if key.endswith("-inside") or key.endswith("-outside"):
+                pk = case.get("poly_kind", "")
+                key += "".join(":" + t for t in ("short-edge", "far-offset") if "+" + t in pk)
             ctx.viol(key, what, q=q, got=got, want=want, orientation=orient, poly_kind=case.get("poly_kind"),
                      n_vertices=len(verts), dist_to_polygon_edges=_dist_to_edges(verts, q), dist_to_nearest_chord=chord)
 
